@@ -311,8 +311,8 @@ def check_builder_effects(chk, ix, rules=("B3", "G3", "G2")):
                                               "description": None, "background": None, "feature": None},
                              label="template"))
         builder = st.alloc(HObj(ix.cls("behave.model:ScenarioOutlineBuilder"), {"annotation_schema": "x"}, label="builder"))
-        example = st.alloc(HObj("ExampleStub", {"tags": etags, "name": "ex", "index": 1}, label="example"))
-        row = st.alloc(HObj("RowStub", {"line": 42, "index": 1, "id": "1.1"}, label="row"))
+        example = st.alloc(HObj("ExampleStub", {"tags": etags, "name": "ex", "index": 1}, open=True, label="example"))
+        row = st.alloc(HObj("RowStub", {"line": 42, "index": 1, "id": "1.1"}, open=True, label="row"))
         st.freeze_base()
         outs = it.run(func, st, [example, row, tmpl, Top("params", True)], {}, self_val=builder)
         chk.absorb(it)
